@@ -145,7 +145,14 @@ func (f *fnTrans) factOb(guard, t Term) {
 	if g.S == "true" {
 		return
 	}
-	f.vc.Lines = append(f.vc.Lines, fmt.Sprintf("(assert %s) ;ob", g.S))
+	// the assumption carries the tags of the obligation it restates (always the one just
+	// created): a run for property P neither checks nor assumes obligations of other
+	// properties inside the same function, so P's verdict never rests on them
+	tag := ""
+	if n := len(f.vc.Obls); n > 0 {
+		tag = "[" + strings.Join(f.vc.Obls[n-1].Props, ",") + "]"
+	}
+	f.vc.Lines = append(f.vc.Lines, fmt.Sprintf("(assert %s) ;ob%s", g.S, tag))
 }
 
 func (f *fnTrans) here() Term { return f.at[f.curB] }
@@ -281,7 +288,22 @@ func (f *fnTrans) rangeFact(t Term, typ types.Type) Term {
 		case *types.Pointer, *types.Map, *types.Signature, *types.Chan:
 			return And(Ge(t, IntLit(0)), Le(App("root", SInt, t), f.heap("G$allocTop")), f.typeInv(t, typ))
 		case *types.Interface:
-			return And(Ge(t, IntLit(0)), Le(App("root", SInt, t), f.heap("G$allocTop")))
+			// whatever finished object of the package is behind the interface satisfies its type invariant
+			out := []Term{Ge(t, IntLit(0)), Le(App("root", SInt, t), f.heap("G$allocTop"))}
+			seenT := map[string]bool{}
+			for _, ti := range f.w.Spec.TypeInvs {
+				if seenT[ti[0]] {
+					continue
+				}
+				seenT[ti[0]] = true
+				if obj, ok := f.w.TPkg.Scope().Lookup(ti[0]).(*types.TypeName); ok {
+					pt := types.NewPointer(obj.Type())
+					if types.Implements(pt, typ.Underlying().(*types.Interface)) {
+						out = append(out, Implies(And(Ne(t, IntLit(0)), Eq(App("dyntype", SInt, t), f.w.Tag(pt))), f.typeInv(t, pt)))
+					}
+				}
+			}
+			return And(out...)
 		}
 	}
 	if t.Sort == SSlice {
@@ -695,6 +717,7 @@ func (f *fnTrans) env(b *ssa.BasicBlock, st *State, extra map[string]TV) *Env {
 	e.emit = func(t Term) { f.factHere(t) }
 	e.topFor = f.topForVersion
 	e.wfSeen = f.wfSeenMap()
+	e.objInv = f.typeInvIn
 	e.rangeIters = func(n int) (Term, string, bool) {
 		k := 0
 		for _, blk := range f.fn.Blocks {
@@ -1481,6 +1504,7 @@ func (f *fnTrans) loopEntry(li *loopInfo, preds []*ssa.BasicBlock, conds []Term)
 	// compute merged state without treating phis (we havoc them)
 	f.mergeHeapOnly(preds, conds)
 	f.loops[hdr] = li
+	beforeHavoc := f.cur.Clone()
 	var mods []string
 	for h := range li.mods {
 		mods = append(mods, h)
@@ -1535,6 +1559,7 @@ func (f *fnTrans) loopEntry(li *loopInfo, preds []*ssa.BasicBlock, conds []Term)
 			}
 		}
 	}
+	f.historyFacts(mods, beforeHavoc)
 	// finished objects received as parameters satisfy their type invariant at the loop head too
 	// (every store of this function to such an object re-establishes it on the spot)
 	for _, p := range f.fn.Params {
@@ -1549,6 +1574,10 @@ func (f *fnTrans) loopEntry(li *loopInfo, preds []*ssa.BasicBlock, conds []Term)
 	if li.spec != nil {
 		env := f.env(hdr, f.cur, over)
 		for _, cl := range li.spec.Invariants {
+			if f.w.RunningProp != "" && len(cl.Props) > 0 && !hasProp(cl.Props, f.w.RunningProp) {
+				// an invariant of another property is neither checked nor assumed in this run
+				continue
+			}
 			t, err := env.EvalBool(cl.Expr)
 			if err != nil {
 				f.unsupported("%s: invariant %q: %v", cl.Line, cl.Src, err)
@@ -1628,6 +1657,52 @@ func (f *fnTrans) loopBack(li *loopInfo, from *ssa.BasicBlock) {
 	}
 }
 
+// historyHeaps: the ghost heaps a declared history constraint talks about.
+func (w *World) historyHeaps(src string) []string {
+	toks, _ := lexSpec(src)
+	var out []string
+	seen := map[string]bool{}
+	for _, tk := range toks {
+		if tk.kind == "id" && !seen[tk.s] {
+			if _, ok := w.ghostFn[tk.s]; ok {
+				seen[tk.s] = true
+				out = append(out, "X$_$"+tk.s)
+			}
+		}
+	}
+	return out
+}
+
+// historyFacts: after the heaps in mods were havocked (by a call or a loop cut), the declared
+// two-state invariants relate the new state to the state before.
+func (f *fnTrans) historyFacts(mods []string, before *State) {
+	for _, hs := range f.w.Spec.Histories {
+		touched := false
+		for _, h := range f.w.historyHeaps(hs[0]) {
+			for _, m := range mods {
+				if m == h {
+					touched = true
+				}
+			}
+		}
+		if !touched {
+			continue
+		}
+		ex, err := ParseSpecExpr(hs[0])
+		if err != nil {
+			f.unsupported("%s: history: %v", hs[2], err)
+			continue
+		}
+		env := &Env{w: f.w, names: map[string]TV{}, st: f.cur, old: before, lets: map[string]SExpr{}}
+		t, err := env.EvalBool(ex)
+		if err != nil {
+			f.unsupported("%s: history: %v", hs[2], err)
+			continue
+		}
+		f.factHere(t)
+	}
+}
+
 // isConstructing: the contract declares that this parameter's object is under construction.
 func (f *fnTrans) isConstructing(v ssa.Value) bool {
 	p, ok := v.(*ssa.Parameter)
@@ -1640,6 +1715,14 @@ func (f *fnTrans) isConstructing(v ssa.Value) bool {
 		}
 	}
 	return false
+}
+
+// typeInvIn: typeInv evaluated in state st.
+func (f *fnTrans) typeInvIn(st *State, t Term, typ types.Type) Term {
+	save := f.cur
+	f.cur = st
+	defer func() { f.cur = save }()
+	return f.typeInv(t, typ)
 }
 
 // typeInv instantiates the declared invariants of a struct type at reference t.
